@@ -96,6 +96,10 @@ class P:
                 if self.peek()[1] == "}" or self.peek()[0] == "eof": out.append(("tail", e))
                 else: out.append(("expr", e))
                 continue
+            if self.accept("for"):
+                var = self.next()[1]; self.expect("in")
+                r = self.expr_nostruct(); self.expect("{"); b = self.block(); self.expect("}"); self.accept(";")
+                out.append(("for", var, r, b)); continue
             if self.accept("while"):
                 c = self.expr_nostruct(); self.expect("{"); b = self.block(); self.expect("}"); self.accept(";")
                 out.append(("while", c, b)); continue
@@ -483,6 +487,10 @@ def par(s): return s if re.fullmatch(r"[\w.']+|\(.*\)", s) else "(" + s + ")"
 
 def unparse(e):
     k = e[0]
+    if k == "fcall": return "%s(%s)" % (e[1], ", ".join(unparse(a) for a in e[2]))
+    if k == "block" and len(e[1]) == 1 and e[1][0][0] == "tail": return unparse(e[1][0][1])
+    if k == "cast": return "%s as %s" % (unparse(e[1]), e[2])
+    if k == "str": return e[1]
     if k == "num": return str(e[1])
     if k == "var": return e[1]
     if k == "bin": return "%s %s %s" % (unparse(e[2]), e[1], unparse(e[3]))
@@ -549,6 +557,8 @@ class EmitCmds(Emit):
         self.declared = set()
         self.slices = {}                     # local -> (slot, count) of a `slice_from_raw_parts_mut`
         self.dropfns = set()                 # locals bound to `Some(drop_fn)`
+        self.owner = {}                      # pointer local -> "self" / "cloned" (functions that touch two vectors)
+        self.clonefns = set()                # parameters that are the element clone function
         self.typeids = set()                 # locals holding the vector's element type id
         self.zeros = set()                   # counters initialised to 0 and not yet touched
         self.mode = None                     # "pre" / "post": the part of a function before / after its write loop
@@ -604,7 +614,7 @@ class EmitCmds(Emit):
             return (self.nat(e[2][1]), False)
         if k == "call":
             recv, m, args = e[1], e[2], e[3]
-            if m in ("as_mut_ptr", "as_ptr") and not args and self.path(recv) == "self.mem": return ("0", False)
+            if m in ("as_mut_ptr", "as_ptr") and not args and self.path(recv) in ("self.mem", (getattr(self, "clonevar", None) or "?") + ".mem"): return ("0", False)
             p = self.ptr(recv)
             if p is None: return None
             if m == "cast" and not args:
@@ -642,6 +652,46 @@ class EmitCmds(Emit):
     def cmd(self, term, rest):
         if self.suppress: return self.cmds(rest)
         return "%s ::\n  %s" % (term, self.cmds(rest))
+    def forloop(self, s, rest):
+        """the two element-wise loops: the typed clone loop of `clone_fn` and the erased destructor loop of `drop_fn`"""
+        var, rng, body = s[1], s[2], s[3]
+        if not (rng[0] == "bin" and rng[1] == ".." and rng[2] == ("num", 0)): raise KernelError("for loop is not over 0..n")
+        n = self.nat(rng[3])
+        flat = []
+        for b in body:
+            if b[0] in ("expr", "tail") and b[1][0] == "block": flat += list(b[1][1])
+            else: flat.append(b)
+        if var == "_":
+            # drop_in_place(ptr as *mut T); ptr = ptr.add(size_of::<T>())
+            if len(flat) != 2: raise KernelError("destructor loop body has %d statements, expected 2" % len(flat))
+            b0, b1 = flat
+            ok = (b0[0] == "expr" and b0[1][0] == "fcall" and b0[1][1] in ("ptr::drop_in_place", "core::ptr::drop_in_place") and len(b0[1][2]) == 1)
+            if not ok: raise KernelError("destructor loop does not start with drop_in_place")
+            p = self.slot(b0[1][2][0], "drop_in_place")
+            if not p[1]: raise KernelError("drop_in_place through an untyped pointer")
+            P = b0[1][2][0]
+            while P[0] == "cast": P = P[1]
+            ok = b1[0] == "assign" and b1[1] == P and b1[2] == "="
+            if ok:
+                adv = self.ptr(b1[3]); ok = adv is not None and adv[0] == "(%s + 1)" % p[0]
+            if not ok: raise KernelError("destructor loop does not advance the pointer by exactly one element")
+            return self.cmd("MCmd.dropEach %s %s" % (p[0], n), rest)
+        # clone loop: `let dst = dst.add(i); let src = src.add(i); dst.write((*src).clone());` (the two lets in either order)
+        if len(flat) != 3: raise KernelError("clone loop body has %d statements, expected 3" % len(flat))
+        lets = {}
+        for b_ in flat[:2]:
+            ok = (b_[0] == "let" and b_[2][0] == "call" and b_[2][2] == "add" and b_[2][3] == [("var", var)] and b_[2][1][0] == "var"
+                  and b_[2][1][1] in self.ptrs and self.ptrs[b_[2][1][1]][1])
+            if not ok: raise KernelError("clone loop: expected `let p = q.add(%s)` on a typed pointer" % var)
+            lets[b_[1]] = self.ptrs[b_[2][1][1]][0]
+        w = flat[2]
+        ok = (w[0] == "expr" and w[1][0] == "call" and w[1][2] == "write" and len(w[1][3]) == 1 and w[1][1][0] == "var" and w[1][1][1] in lets)
+        if ok:
+            a_ = w[1][3][0]
+            ok = (a_[0] == "call" and a_[2] == "clone" and not a_[3] and a_[1][0] == "deref" and a_[1][1][0] == "var"
+                  and a_[1][1][1] in lets and a_[1][1][1] != w[1][1][1])
+        if not ok: raise KernelError("clone loop does not end in `dst.write((*src).clone())`")
+        return self.cmd("MCmd.cloneEach %s %s %s" % (lets[a_[1][1][1]], lets[w[1][1][1]], n), rest)
     def loop(self, s, rest):
         """the write loop of `Splice::drop`: `while written < limit { take the next replacement value or break;
         check its type; move it into *ptr; ptr += one element; written += 1 }`"""
@@ -694,9 +744,14 @@ class EmitCmds(Emit):
                 if not p[1]: raise KernelError("slice of an untyped pointer")
                 self.slices[name] = (p[0], self.nat(rhs[2][1])); return self.cmds(rest)
             if rhs[0] == "fcall" and rhs[1].split("::")[-1] == "element_typeid": self.typeids.add(name); return self.cmds(rest)
+            if rhs[0] == "call" and rhs[2] == "clone_empty" and not rhs[3] and self.path(rhs[1]) == "self" and self.clonefns:
+                # the new vector: its `len` is the state this function assigns, its `mem` the destination storage
+                self.clonevar = name; self.state = {name + ".len": "clen"}
+                return self.cmd("MCmd.cloneEmpty", rest)
             p = self.ptr(rhs)
             if p is not None:
                 nm = self.name(name) + "_p"
+                if rhs[0] == "call" and rhs[2] in ("as_mut_ptr", "as_ptr"): self.owner[name] = (self.path(rhs[1]) or "").split(".")[0]
                 self.ptrs[name] = (nm, p[1])
                 return "(let %s := %s;\n  %s)" % (nm, p[0], self.cmds(rest))
             if rhs == ("num", 0): self.zeros.add(name)
@@ -711,6 +766,7 @@ class EmitCmds(Emit):
             if self.suppress: return "(let %s := %s;\n  %s)" % (cur, v, self.cmds(rest))
             return "(let %s := %s;\n  MCmd.setLen %s ::\n  %s)" % (cur, v, cur, self.cmds(rest))
         if s[0] == "while": return self.loop(s, rest)
+        if s[0] == "for": return self.forloop(s, rest)
         if s[0] == "assert":
             c = self.cond(s[1], [])
             msg = s[2] if s[2] is not None else '"assertion failed: %s"' % unparse(s[1])
@@ -721,6 +777,7 @@ class EmitCmds(Emit):
         if s[0] in ("expr", "tail"):
             e = s[1]
             if e[0] == "block": return self.cmds(list(e[1]) + list(rest))
+            if s[0] == "tail" and getattr(self, "clonevar", None) and e == ("var", self.clonevar) and not rest: return "[]"
             if e[0] == "if":
                 c = e[1]
                 if c[0] == "iflet":
@@ -738,6 +795,7 @@ class EmitCmds(Emit):
             if e[0] == "call":
                 key = (self.path(e[1]) or "") + "." + e[2]
                 if key == "self.reserve_one" and not e[3]: return self.cmd("MCmd.reserveOne", rest)
+                if getattr(self, "clonevar", None) and key == self.clonevar + ".reserve" and len(e[3]) == 1: return self.cmd("MCmd.reserve %s" % self.nat(e[3][0]), rest)
                 if key == "any_vec_raw.reserve" and len(e[3]) == 1: return self.cmd("MCmd.reserve %s" % self.nat(e[3][0]), rest)
                 if key == "self.op.consume" and not e[3]: return self.cmd("MCmd.consume", rest)
                 if e[2] == "move_into" and self.path(e[1]) == "value" and len(e[3]) == 2:
@@ -764,6 +822,12 @@ class EmitCmds(Emit):
                     return self.cmd("MCmd.dropRange %s %s" % (self.nat(a[1]), self.nat(a[2])), rest)
                 if short == "move_elements_at" and len(a) == 4:
                     return self.cmd("MCmd.moveElems %s %s %s" % (self.nat(a[1]), self.nat(a[2]), self.nat(a[3])), rest)
+                if fn in self.clonefns and len(a) == 3:
+                    ps, pd = self.slot(a[0], "clone_fn"), self.slot(a[1], "clone_fn")
+                    so = self.owner.get(a[0][1]) if a[0][0] == "var" else None
+                    do = self.owner.get(a[1][1]) if a[1][0] == "var" else None
+                    if so != "self" or do != getattr(self, "clonevar", None): raise KernelError("clone_fn is not called from self's storage into cloned's")
+                    return self.cmd("MCmd.cloneFn %s %s %s" % (ps[0], pd[0], self.nat(a[2])), rest)
                 if fn in self.dropfns and len(a) == 2:
                     p = self.slot(a[0], "drop_fn")
                     return self.cmd("MCmd.dropFn %s %s" % (p[0], self.nat(a[1])), rest)
@@ -817,6 +881,14 @@ inductive MCmd where
   /-- the write loop of `Splice::drop`: at most `limit` values of the replacement iterator, each type-checked and
   moved into consecutive slots from `slot` on -/
   | writeLoop (slot limit : Nat)
+  /-- `let mut cloned = self.clone_empty()` -/
+  | cloneEmpty
+  /-- `(clone_fn)(ptr(src of self), ptr(dst of cloned), n)` -/
+  | cloneFn (src dst n : Nat)
+  /-- `for i in 0..n { dst.add(i).write((*src.add(i)).clone()) }`: one clone per element, in increasing order -/
+  | cloneEach (src dst n : Nat)
+  /-- `for _ in 0..n { drop_in_place(ptr); ptr = ptr.add(1 element) }`: one destructor per element, increasing order -/
+  | dropEach (s n : Nat)
   | panic (msg : String)
   deriving Repr, DecidableEq
 """
@@ -847,6 +919,11 @@ CMD_KERNELS = [
         {}, {}, {"self.op.bytes()": ("slot", False)}, ["drop_fn"], [], dict(UNK, hasDropFn="hasDropFn")),
 ]
 
+CLONE_KERNELS = [
+    # (lean name, file, fn, marker, params, env, state, ptr_env, ignore, clonefns)
+    ("clone_cmds", "any_vec_raw.rs", "clone", None, "(len : Nat)", {"self.len": "len"}, {"cloned.len": "clen"}, {}, [], ["clone_fn"]),
+    ("clone_fn_cmds", "clone_type.rs", "clone_fn", None, "(len : Nat)", {"len": "len"}, {}, {"src": ("0", False), "dst": ("0", False)}, [], []),
+]
 SPLICE_ENV = {"self.iter.index": "iter_index", "self.iter.end": "iter_end", "self.start": "start", "self.end": "end_",
               "self.original_len": "original_len", "self.replace_with.len()": "replace_len"}
 SPLICE_PARAMS = "(iter_index iter_end start end_ original_len replace_len : Nat)"
@@ -878,6 +955,72 @@ def translate_cmds(repo_src):
             lean = '[MCmd.panic "kernel %s: translator failure"]' % lname
         out.append("/-- `%s` in src/%s -/" % (fn, f))
         out.append("def %s %s : List MCmd :=\n  %s\n" % (lname, params, lean))
+    for (lname, f, fn, marker, params, env, state, ptr_env, ignore, clonefns) in CLONE_KERNELS:
+        try:
+            src = strip_comments(open(os.path.join(repo_src, f)).read())
+            ast = P(tokenize(find_fn(src, fn, marker))).block()
+            em = EmitCmds(env, state, ptr_env, ignore, {}, {})
+            em.clonefns = set(clonefns)
+            lean = em.cmds(ast)
+        except KernelError as ex:
+            errors[lname] = str(ex)
+            lean = '[MCmd.panic "kernel %s could not be translated: %s"]' % (lname, str(ex).replace('"', "'"))
+        except Exception as ex:
+            errors[lname] = "translator failure: %r" % (ex,)
+            lean = '[MCmd.panic "kernel %s: translator failure"]' % lname
+        out.append("/-- `%s` in src/%s -/" % (fn, f))
+        out.append("def %s %s : List MCmd :=\n  %s\n" % (lname, params, lean))
+    # the erased destructor: the closure stored in `drop_fn` by `AnyVecRaw::new`
+    try:
+        src = strip_comments(open(os.path.join(repo_src, "any_vec_raw.rs")).read())
+        body = find_fn(src, "new", None)
+        m = re.search(r"drop_fn\s*:\s*if\s*!\s*mem::needs_drop::<T>\(\)\s*\{\s*None\s*\}\s*else\s*\{\s*Some\(\|\s*mut\s+ptr\s*:\s*\*mut\s+u8\s*,\s*len\s*:\s*usize\s*\|\s*\{", body)
+        if not m: raise KernelError("drop_fn is not `if !mem::needs_drop::<T>() { None } else { Some(|mut ptr: *mut u8, len: usize| {..}) }`")
+        i = m.end() - 1; depth = 0; k = i
+        while k < len(body):
+            if body[k] == "{": depth += 1
+            elif body[k] == "}":
+                depth -= 1
+                if depth == 0: break
+            k += 1
+        closure = body[i + 1:k]
+        ast = P(tokenize(closure)).block()
+        em = EmitCmds({"len": "len"}, {}, {"ptr": ("0", False)}, [], {}, {})
+        lean = em.cmds(ast)
+    except KernelError as ex:
+        errors["drop_fn_cmds"] = str(ex)
+        lean = '[MCmd.panic "kernel drop_fn_cmds could not be translated: %s"]' % str(ex).replace('"', "'")
+    except Exception as ex:
+        errors["drop_fn_cmds"] = "translator failure: %r" % (ex,)
+        lean = '[MCmd.panic "kernel drop_fn_cmds: translator failure"]'
+    # constructors that copy the per-type facts (type id, destructor, clone function) from an existing vector
+    for (lname, f, fn, marker) in [("raw_clone_empty_in_fields", "any_vec_raw.rs", "clone_empty_in", None),
+                                   ("raw_clone_empty_fields", "any_vec_raw.rs", "clone_empty", None),
+                                   ("anyvec_clone_empty_fields", "any_vec.rs", "clone_empty", None),
+                                   ("anyvec_clone_empty_in_fields", "any_vec.rs", "clone_empty_in", None),
+                                   ("anyvec_clone_fields", "any_vec.rs", "clone", "Clone for AnyVec<Traits, M>")]:
+        try:
+            src = strip_comments(open(os.path.join(repo_src, f)).read())
+            ast = P(tokenize(find_fn(src, fn, marker))).block()
+            rows = []
+            for st in ast[:-1]:
+                if st[0] != "let": raise KernelError("unexpected statement before the result")
+                rows.append(("let " + st[1], unparse(st[2])))
+            last = ast[-1]
+            if last[0] != "tail": raise KernelError("function does not end in an expression")
+            if last[1][0] == "struct":
+                for k_, v_ in last[1][2].items(): rows.append((k_, unparse(v_)))
+            else: rows.append(("=", unparse(last[1])))
+            if any("<" in v_ and v_.endswith(">") and v_.startswith("<") for _, v_ in rows): raise KernelError("unsupported field expression")
+            tlean = "[" + ", ".join('("%s", "%s")' % (a_, b_.replace('"', "'")) for a_, b_ in rows) + "]"
+        except KernelError as ex:
+            errors[lname] = str(ex); tlean = '[("error", "%s")]' % str(ex).replace('"', "'")
+        except Exception as ex:
+            errors[lname] = "translator failure: %r" % (ex,); tlean = '[("error", "translator failure")]'
+        out.append("/-- `%s` in src/%s: where every field of the result comes from -/" % (fn, f))
+        out.append("def %s : List (String × String) :=\n  %s\n" % (lname, tlean))
+    out.append("/-- the closure `AnyVecRaw::new` stores in `drop_fn` when the type needs drop (src/any_vec_raw.rs) -/")
+    out.append("def drop_fn_cmds (len : Nat) : List MCmd :=\n  %s\n" % lean)
     return "\n".join(out), errors
 
 def translate(repo_src):
